@@ -8,13 +8,6 @@ Open Scope Z_scope.
 
 (* ------------------------------------------------------------------ *)
 (* specification vocabulary                                            *)
-(* every strict threshold is at least 1e-5 above its floor: (th - min)^2 >= eps = 1e-10,
-   written over the common denominator S *)
-Definition margin (S : Z) (th : thresholds) : Prop :=
-  EPS_NUM * (S * S) <= (q1_th th - q1_min th) * (q1_th th - q1_min th) * EPS_DEN /\
-  EPS_NUM * (S * S) <= (qdiff_th th - qdiff_min th) * (qdiff_th th - qdiff_min th) * EPS_DEN /\
-  EPS_NUM * (S * S) <= (fold_th th - fold_min th) * (fold_th th - fold_min th) * EPS_DEN.
-
 (* on or above every floor *)
 Definition above_floors (th : thresholds) (g : score) : Prop :=
   let '(q1, qd, f) := g in q1_min th <= q1 /\ qdiff_min th <= qd /\ fold_min th <= f.
@@ -88,23 +81,6 @@ Proof. unfold term. destruct (t <? x); cbv iota; [lia | apply Z.square_nonneg]. 
 Lemma term_zero x t : t < x -> term x t = 0.
 Proof. intros H. unfold term. apply Z.ltb_lt in H. rewrite H. reflexivity. Qed.
 
-Lemma term_below_floor x t mn : mn < t -> x < mn -> (t - mn) * (t - mn) < term x t.
-Proof.
-  intros H1 H2. unfold term. destruct (t <? x) eqn:E.
-  - apply Z.ltb_lt in E. lia.
-  - apply Z.ltb_ge in E. cbv iota. nia.
-Qed.
-
-Lemma arith_margin (N E s2 a b c m2 : Z) :
-  0 < E -> 0 <= b -> 0 <= c -> m2 < a -> N * s2 <= m2 * E -> 2 * (b + a + c) * E < N * (2 * s2) -> False.
-Proof.
-  intros HE Hb Hc Ha Hm H.
-  assert (H1 : m2 * E < a * E) by (apply Z.mul_lt_mono_pos_r; assumption).
-  assert (H2 : 0 <= b * E) by (apply Z.mul_nonneg_nonneg; lia).
-  assert (H3 : 0 <= c * E) by (apply Z.mul_nonneg_nonneg; lia).
-  lia.
-Qed.
-
 Lemma EPS_DEN_pos : 0 < EPS_DEN. Proof. reflexivity. Qed.
 Lemma EPS_NUM_pos : 0 < EPS_NUM. Proof. reflexivity. Qed.
 
@@ -162,39 +138,14 @@ Proof.
   destruct (is_invalid th g); lia.
 Qed.
 
-(* an "absolutely valid" gene (distance^2 < 1e-10) is on or above every floor, PROVIDED the
-   floors are at least 1e-5 below the strict thresholds *)
+(* an "absolutely valid" gene is on or above every floor: the code requires it not to be
+   flagged invalid (F8 repaired; no distance between thresholds and floors is needed) *)
 Lemma abs_valid_above_floors S th bad g :
-  margin S th -> th_ordered th ->
   absolutely_valid S (gd_of th bad g) = true -> above_floors th g.
 Proof.
-  intros (M1 & M2 & M3) (O1 & O2 & O3) H. apply is_invalid_false.
-  unfold absolutely_valid in H. apply Z.ltb_lt in H. unfold gd_of in H. cbn [g_true] in H.
-  destruct g as [[q1 qd] f]. unfold raw_dists, d_true in H. cbn [fst snd] in H.
-  pose proof (term_nonneg q1 (q1_th th)) as Ta. pose proof (term_nonneg qd (qdiff_th th)) as Tb.
-  pose proof (term_nonneg f (fold_th th)) as Tc.
-  pose proof EPS_DEN_pos as HE.
-  replace (2 * S * S) with (2 * (S * S)) in H by ring.
-  unfold is_invalid. rewrite !orb_false_iff, !Z.ltb_ge.
-  split; [|split].
-  - destruct (Z.le_gt_cases (q1_min th) q1) as [Hc|Hc]; [exact Hc | exfalso].
-    pose proof (term_below_floor q1 (q1_th th) (q1_min th) O1 Hc) as Hlt.
-    apply (arith_margin EPS_NUM EPS_DEN (S * S) (term q1 (q1_th th)) (term qd (qdiff_th th))
-             (term f (fold_th th)) _ HE Tb Tc Hlt M1 H).
-  - destruct (Z.le_gt_cases (qdiff_min th) qd) as [Hc|Hc]; [exact Hc | exfalso].
-    pose proof (term_below_floor qd (qdiff_th th) (qdiff_min th) O2 Hc) as Hlt.
-    apply (arith_margin EPS_NUM EPS_DEN (S * S) (term qd (qdiff_th th)) (term q1 (q1_th th))
-             (term f (fold_th th)) _ HE Ta Tc Hlt M2).
-    replace (2 * (term q1 (q1_th th) + term qd (qdiff_th th) + term f (fold_th th)) * EPS_DEN)
-      with (2 * (term qd (qdiff_th th) + term q1 (q1_th th) + term f (fold_th th)) * EPS_DEN) by ring.
-    exact H.
-  - destruct (Z.le_gt_cases (fold_min th) f) as [Hc|Hc]; [exact Hc | exfalso].
-    pose proof (term_below_floor f (fold_th th) (fold_min th) O3 Hc) as Hlt.
-    apply (arith_margin EPS_NUM EPS_DEN (S * S) (term f (fold_th th)) (term qd (qdiff_th th))
-             (term q1 (q1_th th)) _ HE Tb Ta Hlt M3).
-    replace (2 * (term qd (qdiff_th th) + term f (fold_th th) + term q1 (q1_th th)) * EPS_DEN)
-      with (2 * (term qd (qdiff_th th) + term q1 (q1_th th) + term f (fold_th th)) * EPS_DEN) by ring.
-    exact H.
+  intros H. unfold absolutely_valid in H. apply andb_true_iff in H. destruct H as [_ H].
+  apply negb_true_iff in H. unfold gd_of in H. cbn [g_invalid] in H.
+  apply is_invalid_false. exact H.
 Qed.
 
 Lemma strict_gd S th bad g : 0 < S -> th_ordered th -> strictly_passes th g ->
@@ -204,10 +155,12 @@ Proof.
   intros HS (O1 & O2 & O3) Hp. destruct g as [[q1 qd] f]. destruct Hp as (P1 & P2 & P3).
   assert (Einv : is_invalid th (q1, qd, f) = false).
   { apply is_invalid_false. unfold above_floors. lia. }
-  unfold gd_of. rewrite Einv. cbn [g_true g_invalid g_qdiff absolutely_valid].
-  unfold absolutely_valid, raw_dists, d_true, d_qdiff. cbn [fst snd g_true].
+  unfold gd_of. rewrite Einv.
+  unfold absolutely_valid, within_eps. cbn [g_true g_invalid g_qdiff negb].
+  unfold raw_dists, d_true, d_qdiff. cbn [fst snd].
   rewrite (term_zero q1 _ P1), (term_zero qd _ P2), (term_zero f _ P3).
   split; [|split; reflexivity].
+  rewrite andb_true_r.
   apply Z.ltb_lt. change (2 * (0 + 0 + 0)) with 0. rewrite Z.mul_0_l.
   apply Z.mul_pos_pos; [exact EPS_NUM_pos | nia].
 Qed.
@@ -218,17 +171,16 @@ Proof. unfold kth. intros H. apply nth_error_In in H. apply (proj1 (zsort_in a l
 (* ------------------------------------------------------------------ *)
 (* approx_penetrance_test                                              *)
 Lemma approx_sound : forall S th n_valid scores m g,
-  margin S th ->
   approx_penetrance_test S th n_valid scores = POk m -> nth_error m g = Some true ->
   exists sc, nth_error scores g = Some sc /\ above_floors th sc.
 Proof.
-  intros S th nv scores m g HM H Hg. unfold approx_penetrance_test in H. cbv zeta in H.
+  intros S th nv scores m g H Hg. unfold approx_penetrance_test in H. cbv zeta in H.
   destruct (penetrance_parameter_distance S th scores) as [ds|c] eqn:Ep; [|discriminate H].
   cbn [pbind] in H. apply ppd_inv in Ep. destruct Ep as (HO & bad & Hbad & Eds).
   destruct (Nat.min nv (length scores) <=? count_true (map (absolutely_valid S) ds))%nat.
   - inversion H; subst m. rewrite Eds, map_map in Hg.
     apply map_nth_error_inv in Hg. destruct Hg as (sc & Hsc & Hav).
-    exists sc. split; [exact Hsc|]. apply (abs_valid_above_floors S th bad sc HM HO). symmetry. exact Hav.
+    exists sc. split; [exact Hsc|]. apply (abs_valid_above_floors S th bad sc). symmetry. exact Hav.
   - destruct (kth (Nat.min nv (length scores) - 1) (map g_q1 ds)) as [a|]; [|discriminate H].
     destruct (kth (Nat.min nv (length scores) - 1) (map g_qdiff ds)) as [b|]; [|discriminate H].
     destruct (kth (Nat.min nv (length scores) - 1) (map g_fold ds)) as [c|]; [|discriminate H].
@@ -266,20 +218,18 @@ Proof.
     apply Z.leb_le in Hcut. rewrite Hcut. reflexivity.
 Qed.
 
-(* F8: without the margin the faithful model refutes soundness.
-   S = 2^20, q1_th = 0.109375, q1_min_th = 0.109375 - 2^-20, gene q1 = 0.109375 - 2^-19,
-   n_valid = 1: the gene is below the floor and is accepted *)
-Lemma approx_sound_refuted :
-  exists S th n_valid scores m g sc,
-    0 < S /\ th_ordered th /\
-    approx_penetrance_test S th n_valid scores = POk m /\ nth_error m g = Some true /\
-    nth_error scores g = Some sc /\ ~ above_floors th sc.
+(* F8 (repaired): the former counterexample to soundness.  S = 2^20, q1_th = 0.109375,
+   q1_min_th = 0.109375 - 2^-20, gene q1 = 0.109375 - 2^-19, n_valid = 1: the gene is within
+   1e-10 of the strict corner but below the floor; it is now rejected *)
+Lemma f8_witness_rejected :
+  let th := mk_th 114688 114687 524288 104858 1048576 838861 in
+  let sc : score := (114686, 943718, 2097152) in
+  ~ above_floors th sc /\
+  within_eps 1048576 (gd_of th 0 sc) = true /\
+  approx_penetrance_test 1048576 th 1 [sc] = POk [false].
 Proof.
-  exists 1048576, (mk_th 114688 114687 524288 104858 1048576 838861), 1%nat,
-         [(114686, 943718, 2097152)], [true], 0%nat, (114686, 943718, 2097152).
-  split; [lia|]. split; [unfold th_ordered; cbn; lia|].
-  split; [vm_compute; reflexivity|]. split; [reflexivity|]. split; [reflexivity|].
-  unfold above_floors. cbn. lia.
+  cbv zeta. split; [unfold above_floors; cbn; lia|].
+  split; vm_compute; reflexivity.
 Qed.
 
 (* ------------------------------------------------------------------ *)
@@ -288,14 +238,13 @@ Definition crit (th : thresholds) (exact : bool) (sc : score) : Prop :=
   if exact then strictly_passes th sc else above_floors th sc.
 
 Lemma pen_sound S th exact nv scs m g :
-  margin S th ->
   penetrance_tests S th exact nv scs = POk m -> nth_error m g = Some true ->
   exists sc, nth_error scs g = Some sc /\ crit th exact sc.
 Proof.
-  intros HM H Hg. unfold penetrance_tests in H. destruct exact.
+  intros H Hg. unfold penetrance_tests in H. destruct exact.
   - inversion H; subst m. apply map_nth_error_inv in Hg. destruct Hg as (sc & Hsc & Hx).
     exists sc. split; [exact Hsc|]. apply exact_test_true. symmetry. exact Hx.
-  - apply (approx_sound S th nv scs m g HM H Hg).
+  - apply (approx_sound S th nv scs m g H Hg).
 Qed.
 
 Lemma pen_complete S th exact nv scs m g sc :
@@ -341,16 +290,16 @@ Section OnePass.
           (fun pen => POk (andb_list pv pen)).
 
   Lemma one_pass_sound m v g :
-    margin S th -> - S < q1_min th -> q1_min th < q1_th th ->
+    - S < q1_min th -> q1_min th < q1_th th ->
     one_pass m = POk v -> nth_error v g = Some true ->
     nth_error pv g = Some true /\ in_list m g /\
     exists sc, nth_error scores g = Some sc /\ crit th exact sc.
   Proof.
-    intros HM Hf Ho H Hg. unfold one_pass in H.
+    intros Hf Ho H Hg. unfold one_pass in H.
     destruct (penetrance_tests S th exact nv (mask_scores S m scores)) as [pen|c] eqn:Ep; [|discriminate H].
     cbn [pbind] in H. inversion H; subst v. apply andb_list_true in Hg. destruct Hg as [Hpv Hpen].
     split; [exact Hpv|].
-    destruct (pen_sound S th exact nv _ pen g HM Ep Hpen) as (sc & Hsc & Hc).
+    destruct (pen_sound S th exact nv _ pen g Ep Hpen) as (sc & Hsc & Hc).
     destruct m as [mm|].
     - rewrite nth_error_mask_scores in Hsc.
       destruct (nth_error mm g) as [b|] eqn:Eb; [|discriminate Hsc].
@@ -398,7 +347,6 @@ Lemma sdg_unfold st mask x :
 Proof. reflexivity. Qed.
 
 Lemma sdg_sound : forall st mask x v up g,
-  margin (st_S st) (st_th st) ->
   - st_S st < q1_min (st_th st) -> q1_min (st_th st) < q1_th (st_th st) ->
   score_differential_genes st mask x = POk (v, up) -> nth_error v g = Some true ->
   st_n_min st <= pi_n1 x /\ st_n_min st <= pi_n2 x /\
@@ -406,7 +354,7 @@ Lemma sdg_sound : forall st mask x v up g,
   in_list mask g /\
   exists sc, nth_error (pi_scores x) g = Some sc /\ crit (st_th st) (st_exact st) sc.
 Proof.
-  intros st mask x v up g HM Hf Ho H Hg. rewrite sdg_unfold in H. cbv zeta in H.
+  intros st mask x v up g Hf Ho H Hg. rewrite sdg_unfold in H. cbv zeta in H.
   destruct ((pi_n1 x <? st_n_min st) || (pi_n2 x <? st_n_min st)) eqn:En.
   { inversion H; subst v. exfalso. exact (nth_error_repeat_false _ _ Hg). }
   apply orb_false_iff in En. destruct En as [En1 En2]. apply Z.ltb_ge in En1, En2.
@@ -420,13 +368,13 @@ Proof.
   cbn [pbind] in H.
   destruct ((st_n_valid_min st <=? count_true v1)%nat || st_exact st).
   - inversion H; subst v1 up.
-    destruct (one_pass_sound _ _ _ _ _ _ mask v g HM Hf Ho E1 Hg) as (P1 & P2 & P3).
+    destruct (one_pass_sound _ _ _ _ _ _ mask v g Hf Ho E1 Hg) as (P1 & P2 & P3).
     split; [apply Hpv; exact P1|]. split; [exact P2 | exact P3].
   - destruct (one_pass (st_S st) (st_th st) (st_exact st) (st_n_valid st) (pi_scores x) (pvalue_valid x)
                (Some (andb_list match mask with Some m => m | None => repeat true (length (pi_mean1 x)) end
                                 (pvalue_valid x)))) as [v2|c] eqn:E2; [|discriminate H].
     cbn [pbind] in H. inversion H; subst v2 up.
-    destruct (one_pass_sound _ _ _ _ _ _ _ v g HM Hf Ho E2 Hg) as (P1 & P2 & P3).
+    destruct (one_pass_sound _ _ _ _ _ _ _ v g Hf Ho E2 Hg) as (P1 & P2 & P3).
     split; [apply Hpv; exact P1|]. split; [|exact P3].
     cbn in P2. apply andb_list_true in P2. destruct P2 as [P2 _].
     destruct mask as [m|]; [exact P2 | exact Logic.I].
@@ -468,7 +416,6 @@ Qed.
    passing, in the gene list (and both clusters large enough) *)
 Lemma sdg_exact_iff : forall st mask x v up g,
   st_exact st = true ->
-  margin (st_S st) (st_th st) ->
   - st_S st < q1_min (st_th st) -> q1_min (st_th st) < q1_th (st_th st) -> 0 < st_S st ->
   length (pi_mean1 x) = length (pi_scores x) ->
   score_differential_genes st mask x = POk (v, up) ->
@@ -478,8 +425,8 @@ Lemma sdg_exact_iff : forall st mask x v up g,
    in_list mask g /\
    exists sc, nth_error (pi_scores x) g = Some sc /\ strictly_passes (st_th st) sc).
 Proof.
-  intros st mask x v up g Hex HM Hf Ho HS Hlen H. split.
-  - intros Hg. pose proof (sdg_sound st mask x v up g HM Hf Ho H Hg) as R. rewrite Hex in R. exact R.
+  intros st mask x v up g Hex Hf Ho HS Hlen H. split.
+  - intros Hg. pose proof (sdg_sound st mask x v up g Hf Ho H Hg) as R. rewrite Hex in R. exact R.
   - intros (N1 & N2 & Hp & Hin & sc & Hsc & Hst).
     apply (sdg_complete st mask x v up g sc HS Hlen H N1 N2 Hp Hin Hsc Hst).
 Qed.
@@ -590,7 +537,6 @@ Qed.
 (* a recorded gene has a fold change >= the floor > 0, i.e. different means: swapping the
    pair flips its direction (and nothing else changes) *)
 Lemma sdg_pair_swap : forall st mask x v up g,
-  margin (st_S st) (st_th st) ->
   - st_S st < q1_min (st_th st) -> q1_min (st_th st) < q1_th (st_th st) ->
   0 < fold_min (st_th st) -> fold_min (st_th st) < fold_th (st_th st) ->
   length (pi_mean1 x) = length (pi_mean2 x) ->
@@ -601,10 +547,10 @@ Lemma sdg_pair_swap : forall st mask x v up g,
     (nth_error v g = Some true ->
      forall b, nth_error up g = Some b -> nth_error up' g = Some (negb b)).
 Proof.
-  intros st mask x v up g HM Hf Ho Hfm Hft Hlen Hfold H.
+  intros st mask x v up g Hf Ho Hfm Hft Hlen Hfold H.
   destruct (sdg_swap_validity st mask x v up Hlen H) as (up' & H').
   exists up'. split; [exact H'|]. intros Hg b Hb.
-  destruct (sdg_sound st mask x v up g HM Hf Ho H Hg) as (N1 & N2 & _ & _ & sc & Hsc & Hc).
+  destruct (sdg_sound st mask x v up g Hf Ho H Hg) as (N1 & N2 & _ & _ & sc & Hsc & Hc).
   assert (En : (pi_n1 x <? st_n_min st) || (pi_n2 x <? st_n_min st) = false)
     by (apply orb_false_iff; split; apply Z.ltb_ge; assumption).
   assert (En' : (pi_n1 (swap_pair x) <? st_n_min st) || (pi_n2 (swap_pair x) <? st_n_min st) = false)
@@ -704,6 +650,38 @@ Proof.
   destruct (pmap _ pairs) as [uds|c]; [|reflexivity]. cbn [pbind]. cbv zeta.
   rewrite !(merged_tables fst uds _ (n_per_pos _ _)), !(merged_tables snd uds _ (n_per_pos _ _)).
   reflexivity.
+Qed.
+
+(* F17 (repaired): the tables are written whatever the per-pair lists are - in particular
+   when no pair has an up-regulated (or a down-regulated) marker.  Whenever the gene list
+   overlaps the genes and every pair is scored, find_markers returns the CSR tables of the
+   per-pair up lists and down lists *)
+Lemma find_markers_tables : forall st gn gl np pairs mask uds,
+  gene_mask_of gn gl = POk mask ->
+  pmap (fun x => pbind (score_differential_genes st mask x) (fun vu => POk (up_down vu))) pairs = POk uds ->
+  find_markers st gn gl np pairs = POk (lookup_to_sparse (map fst uds), lookup_to_sparse (map snd uds)).
+Proof.
+  intros st gn gl np pairs mask uds Hm Hp. unfold find_markers. rewrite Hm. cbn [pbind].
+  rewrite Hp. cbn [pbind]. cbv zeta.
+  rewrite (merged_tables fst uds _ (n_per_pos _ _)), (merged_tables snd uds _ (n_per_pos _ _)).
+  reflexivity.
+Qed.
+
+Lemma indptr_of_nil_rows : forall (rows : list (list nat)) a,
+  Forall (fun r => r = []) rows -> indptr_of rows a = repeat a (S (length rows)) /\ concat rows = [].
+Proof.
+  induction rows as [|r t IH]; intros a Hall; [split; reflexivity|].
+  inversion Hall as [|r' t' Hr Ht]; subst. destruct (IH (a + 0)%nat Ht) as [I1 I2].
+  cbn [indptr_of concat length app]. rewrite I1, I2, Nat.add_0_r. split; reflexivity.
+Qed.
+
+(* the table of a direction in which no pair has a marker: no gene index, all pointers 0 *)
+Lemma empty_direction_table : forall (rows : list (list nat)),
+  Forall (fun r => r = []) rows ->
+  lookup_to_sparse rows = (repeat 0%nat (S (length rows)), []).
+Proof.
+  intros rows H. unfold lookup_to_sparse. destruct (indptr_of_nil_rows rows 0%nat H) as [I1 I2].
+  rewrite I1, I2. reflexivity.
 Qed.
 
 (* ------------------------------------------------------------------ *)
@@ -948,7 +926,6 @@ End ValidityMask.
 (* soundness stated with the FULL Holm-Bonferroni value                *)
 Lemma sdg_sound_full_holm : forall st mask x v up g,
   Forall (fun q => 0 <= q <= pi_SP x) (pi_p x) -> pi_T x <= pi_SP x ->
-  margin (st_S st) (st_th st) ->
   - st_S st < q1_min (st_th st) -> q1_min (st_th st) < q1_th (st_th st) ->
   score_differential_genes st mask x = POk (v, up) -> nth_error v g = Some true ->
   st_n_min st <= pi_n1 x /\ st_n_min st <= pi_n2 x /\
@@ -956,8 +933,8 @@ Lemma sdg_sound_full_holm : forall st mask x v up g,
   in_list mask g /\
   exists sc, nth_error (pi_scores x) g = Some sc /\ crit (st_th st) (st_exact st) sc.
 Proof.
-  intros st mask x v up g Hr HT HM Hf Ho H Hg.
-  destruct (sdg_sound st mask x v up g HM Hf Ho H Hg) as (N1 & N2 & (a & Ha & Hlt) & Hin & Hsc).
+  intros st mask x v up g Hr HT Hf Ho H Hg.
+  destruct (sdg_sound st mask x v up g Hf Ho H Hg) as (N1 & N2 & (a & Ha & Hlt) & Hin & Hsc).
   split; [exact N1|]. split; [exact N2|]. split; [|split; [exact Hin | exact Hsc]].
   assert (Hg' : (g < length (pi_p x))%nat).
   { rewrite <- (approx_length (pi_SP x) (pi_T x)). apply nth_error_Some. congruence. }
